@@ -4,6 +4,8 @@ from vlib import common as C
 from checks import _conc as K
 
 LEVEL = "proof"
+# C functions this check's models mirror (source-text fingerprints are recorded in the evidence, see translate/funchash.py)
+MODELLED_FUNCS = {'src/kv/iwkv.c': ['_wnw', '_wnw_db', '_iwkv_worker_inc_nolk', '_db_worker_inc_nolk', 'iwkv_db', 'iwkv_cursor_open', 'iwkv_sync', 'iwkv_exclusive_lock'], 'src/kv/iwal.c': ['iwal_savepoint_exl', 'iwal_poke_checkpoint', '_cpt_worker_fn']}
 MANIFEST = dict(
     level="proof",
     text=("Lean 4 theorems about an executable model of the store's locking protocol (declared lock order, call automata of every "
